@@ -108,6 +108,14 @@ impl Ctx {
         ct
     }
 
+    /// packed encryption of a word in another ciphertext layout (same ring, rank and secret)
+    pub fn enc_packed_with<T: UnsignedInteger + ToBits>(&mut self, v: T, infos: GLWELayout) -> Packed<T> {
+        let mut ct: Packed<T> = FheUint::alloc_from_infos(&infos);
+        let enc = EncryptionLayout::new_from_default_sigma(infos).unwrap();
+        ct.encrypt_sk(&self.module, v, &self.sk_prep, &enc, &mut self.xe, &mut self.xa, self.scratch.borrow());
+        ct
+    }
+
     /// fresh per-bit GGSW encryption of a word (no bootstrapping)
     pub fn enc_prepared<T: UnsignedInteger + ToBits>(&mut self, v: T) -> Prepared<T> {
         self.enc_prepared_with(v, self.ggsw_infos)
